@@ -39,14 +39,25 @@ def build(rng, facts, name):
         b.emit("kobs c", lambda a, env: None if a.startswith("count=0 zero=0 empty=1 min=- max=- pos[total=0 empty=1 min=- max=- bins=] neg[total=0 empty=1 min=- max=- bins=]") else "a cleared sketch reports %r" % a)
         fresh = "f%d" % cyc
         b.knew(fresh, spec, kp, kn, exact)
+        cc = None
+        if rng.random() < 0.5 and cyc == cycles - 1:
+            cc, fcc = "cc", "fcc"; b.kcopy(cc, "c"); b.knew(fcc, spec, kp, kn, exact)
+            lo2, hi2 = rng.choice([-1, 0, -2]), rng.choice([0, 1, 2])
         if rng.random() < 0.3:
             # reuse as a decode target
             b.knew("src", spec, rng.choice(STORES), rng.choice(STORES), exact)
             history(rng, b, ["src"], spec, rng.randint(2, 10), -1, 1)
             b.emit("kenc bb src 0", "ok"); b.emit("kdecinto c bb", "ok"); b.emit("kdecinto %s bb" % fresh, "ok")
             b.vals["c"] = list(b.vals["src"]); b.vals[fresh] = list(b.vals["src"])
+        # a copy of the cleared sketch is a new sketch too: it gets a history of its own, interleaved with that of the cleared sketch
+        # (memory retained by Clear must not be shared), and is compared with a fresh twin of its own
+        if cc:
+            history(rng, b, [cc, fcc], spec, rng.randint(1, 6), lo2, hi2)
         # history after Clear on the cleared sketch and on its fresh twin: narrower / earlier ranges
         history(rng, b, ["c", fresh], spec, rng.randint(2, 20), rng.choice([-1, 0, -2]), rng.choice([0, 1, 2]))
+        if cc:
+            history(rng, b, [cc, fcc], spec, rng.randint(1, 8), lo2, hi2)
+            j2 = b.emit("kobs " + fcc); b.emit("kobs " + cc, ("same", j2))
         j = b.emit("kobs " + fresh); b.emit("kobs c", ("same", j))
         for q in [0.0, 1.0, rng.random(), rng.random()]:
             jq = b.emit("q %s %s" % (fresh, f2h(q))); b.emit("q c %s" % f2h(q), ("same", jq))
